@@ -3,7 +3,7 @@ Reflected checks for the hyperelastic invariants and laws generated in `Gen/C18/
 Invariant tables: an entry `(q, k)` stands for `q·√2^k`; variables 0..5 are (cxx, cyy, czz, cyz, cxz, cxy); the
 Kelvin–Mandel component `r ≥ 3` is `√2 ×` the tensor component, so `∂/∂(Kelvin_r) = (1/√2) ∂/∂x_r`.
 Law tables: variables 0 = I1, 1 = I2, 2 = w = I3^(1/6); an entry `(P, m)` stands for `P / w^m`;
-`∂/∂I3 = (1 / (6 w⁵)) ∂/∂w`.
+`∂/∂I3 = (1 / (6 w⁵)) ∂/∂w`. A law may carry a term `L · log w` (`L` a polynomial in the parameters).
 -/
 import EasyFEAVerif.Model.PExpr
 import EasyFEAVerif.Model.KelvinRot
@@ -72,5 +72,22 @@ def refOK (W : PExpr × Nat) (dW : List (PExpr × Nat)) : Bool :=
 
 def lawOK (W : PExpr × Nat) (dW : List (PExpr × Nat)) (d2W : List (List (PExpr × Nat))) : Bool :=
   lawFirstOK W dW && lawSecondOK dW d2W && refOK W dW
+
+/-! ### laws with a logarithmic volumetric term: energy `P/w^m + L·log w` -/
+
+/-- `D = ∂(P/w^m + L·log w)/∂I3` with `I3 = w⁶`: `6·D.1·w^(m+6) = (∂P/∂w·w − m·P + L·w^m)·w^(D.2)` -/
+def dI3LogOK (W : PExpr × Nat) (L : PExpr) (D : PExpr × Nat) : Bool :=
+  PExpr.eqv (.mul (.mul (.const 6) D.1) (wpow (W.2 + 6)))
+    (.mul (.add (.sub (.mul (PExpr.pd 2 W.1) (.var 2)) (.mul (.const (W.2 : Rat)) W.1)) (.mul L (wpow W.2))) (wpow D.2))
+
+/-- the coefficient of `log w` does not depend on I1, I2, w (variables 0, 1, 2) -/
+def σfree (v : Nat) : PExpr := if v ≤ 2 then .const 1 else .var v
+def logCoefOK (L : PExpr) : Bool := PExpr.eqv (KelvinRot.subst σfree L) L
+
+def lawFirstLogOK (W : PExpr × Nat) (L : PExpr) (dW : List (PExpr × Nat)) : Bool :=
+  dW.length == 3 && dInvOK 0 W (entry1 dW 0) && dInvOK 1 W (entry1 dW 1) && dI3LogOK W L (entry1 dW 2) && logCoefOK L
+
+def lawLogOK (W : PExpr × Nat) (L : PExpr) (dW : List (PExpr × Nat)) (d2W : List (List (PExpr × Nat))) : Bool :=
+  lawFirstLogOK W L dW && lawSecondOK dW d2W && refOK W dW
 
 end EasyFEAVerif.HyperLaws
